@@ -324,6 +324,33 @@ const BOUNDS_FAMILY: &[&str] = &[
     "Sa[5]", "Dec 25-Jan 5", "1900Jan01-1900Jan02", "00:00-24:00 \"c\"",
 ];
 
+/// The spill product (Hints.tla, `applies_or_spills`): every far-hinted day selector x every shape of time span with respect to
+/// midnight (inside the day, ending at 24:00, passing midnight written as end < start / end > 24:00 / end == start / 48:00) x what
+/// follows (nothing, a non-closed fallback rule, an unrelated rule). The iterator jumps over the days the hint declares unchanged, so
+/// a span that shows on the day AFTER the selected one must be seen by the hint.
+fn spill_family() -> Vec<String> {
+    let selectors = ["Dec 24", "2025 Mar 3", "week 10 Mo", "easter", "PH", "Feb 29", "Dec 31"];
+    let spans = ["10:00-10:00", "22:00-02:00", "20:00-26:00", "04:00-48:00", "00:00-24:00", "12:00-24:00", "24:00-26:00"];
+    let tails = ["", " || unknown \"on call\"", " || Mo-Fr 10:00-12:00"];
+    let mut out = Vec::new();
+
+    for sel in selectors {
+        for span in spans {
+            for tail in tails {
+                out.push(format!("{sel} {span}{tail}"));
+            }
+        }
+    }
+
+    out
+}
+
+/// The hand-written families and, rotating with the seed, half of the spill product.
+fn sweep_family(seed: u64) -> Vec<String> {
+    let spill = spill_family().into_iter().enumerate().filter(|(i, _)| (*i as u64 + seed) % 2 == 0).map(|(_, s)| s);
+    HINT_FAMILY.iter().chain(BOUNDS_FAMILY.iter()).map(|s| s.to_string()).chain(spill).collect()
+}
+
 /// Instants at both bounds of the supported range (+-1 minute, +-1 day) and far outside.
 fn pick_bound_instant(rng: &mut Rng) -> NaiveDateTime {
     let start = datetime(DAY_MIN, 0);
@@ -500,7 +527,8 @@ pub fn record(args: &Args) {
 
         let (part, parts) = (args.get_u64("part", 0) as usize, args.get_u64("parts", 1) as usize);
 
-        'outer: for (idx, src) in HINT_FAMILY.iter().chain(BOUNDS_FAMILY.iter()).enumerate() {
+        let fam = sweep_family(seed);
+        'outer: for (idx, src) in fam.iter().enumerate() {
             if idx % parts != part {
                 continue;
             }
